@@ -516,6 +516,28 @@ def hard_events(ctx, rnd, quick):
                 if name == "in_alternating_group" and n == 2:
                     continue                                    # known finding, judged in the exhaustive part
                 add({"op": "Family", "name": name, "p": list(q), "obj": "tiny%d" % n})
+    # 5b. questions abandoned half way (KeyboardInterrupt inside the library) on lengths nothing has asked about yet, then
+    #     asked properly: members and non-members of each family, device outputs
+    nint = 0
+    for n in range(11, 17 if quick else 30):
+        rot = [(i + 3) % n for i in range(n)]
+        refl = [(5 - i) % n for i in range(n)]
+        other = rot[:2][::-1] + rot[2:]
+        for q in (rot, refl, other):
+            for name in ("dihedral", "in_alternating_group", "smooth", "forest_like"):
+                f = getattr(perm_properties, name, None)
+                if f is None:
+                    continue
+                st, _ = util.interrupted_call(lambda: f(Perm(q)), rnd.choice([1, 2, 3, 4, 5, 6, 8, 10, 13, 17, 25, 40]), suffixes=("permuta/",))
+                nint += st == "interrupted"
+            for name in ("dihedral", "in_alternating_group"):
+                add({"op": "Family", "name": name, "p": q})
+        P = Perm(other)
+        st, _ = util.interrupted_call(lambda: (P.stack_sort(), P.bubble_sort(), P.quick_sort(), P.pop_stack_sort()), rnd.randint(1, 80), suffixes=("permuta/",))
+        nint += st == "interrupted"
+        for dev in ("stack", "pop", "bubble", "quick"):
+            add({"op": "Pass", "dev": dev, "p": other})
+    ctx.note("questions_abandoned_half_way", nint)
     # 6. dihedral_group: keyword form, asked twice, two lazy listings alive at once
     for n in range(0, 11):
         add({"op": "Group", "n": n, "form": "kw"})
